@@ -24,6 +24,7 @@ import (
 	"strconv"
 	"strings"
 	"sync"
+	"syscall"
 	"time"
 
 	"verif/fw"
@@ -194,8 +195,66 @@ func runShard(m *meta, p part, shard int, tier string, seed int64, budget int, r
 		var stderr, stdout bytes.Buffer
 		cmd.Stdout = &stdout
 		cmd.Stderr = &stderr
-		err := cmd.Run()
+		// Watchdog: a worker ends by itself when its budget is used up; one that is still there
+		// long after that hangs (the system under test deadlocked outside a bubble).  SIGQUIT makes
+		// the Go runtime dump all goroutines before the process dies.
+		hung := false
+		err := cmd.Start()
+		if err == nil {
+			done := make(chan error, 1)
+			go func() { done <- cmd.Wait() }()
+			select {
+			case err = <-done:
+			case <-time.After(time.Duration(budget*2+120) * time.Second):
+				hung = true
+				_ = cmd.Process.Signal(syscall.SIGQUIT)
+				select {
+				case err = <-done:
+				case <-time.After(15 * time.Second):
+					_ = cmd.Process.Kill()
+					err = <-done
+				}
+			}
+		}
 		_ = os.WriteFile(base+fmt.Sprintf(".log%d", attempt), append(stdout.Bytes(), stderr.Bytes()...), 0o644)
+		if hung {
+			var j struct {
+				N    int64           `json:"n"`
+				Case json.RawMessage `json:"case"`
+			}
+			jb, _ := os.ReadFile(jFile)
+			if i := bytes.IndexByte(jb, '\n'); i >= 0 {
+				jb = jb[:i]
+			}
+			if json.Unmarshal(jb, &j) != nil || j.N == 0 {
+				wo.broken = "worker hung before journalling a case: " + tail(stdout.String()+stderr.String(), 1500)
+				break
+			}
+			wo.crashes = append(wo.crashes, &fw.Violation{
+				Key:    "hang|" + p.Name,
+				Detail: fmt.Sprintf("the worker was still running %d s after it was started with a budget of %d s: the case below never returns (deadlock outside a bubble); goroutine dump:\n%s", budget*2+120, budget, hangSummary(stdout.String()+stderr.String())),
+				Case:   j.Case, Count: 1,
+			})
+			var r fw.Result
+			if b, rerr := os.ReadFile(outFile); rerr == nil && json.Unmarshal(b, &r) == nil {
+				r.Exhaustive = false
+				acc = mergeResults(nil, &r)
+			}
+			if replayPath != "" {
+				break
+			}
+			skipCases = append(skipCases, j.Case)
+			if attempt >= 1 || p.Bin == "race" {
+				// a second hang (or the sampling pass): give up on this shard rather than wait again and again
+				if acc == nil {
+					acc = mergeResults(nil, &fw.Result{})
+				}
+				acc.Exhaustive = false
+				acc.Notes = append(acc.Notes, "gave up restarting the shard after repeated hangs")
+				break
+			}
+			continue
+		}
 		var r fw.Result
 		b, rerr := os.ReadFile(outFile)
 		haveRes := rerr == nil && json.Unmarshal(b, &r) == nil
@@ -261,6 +320,32 @@ func runShard(m *meta, p part, shard int, tier string, seed int64, budget int, r
 	}
 	wo.res = acc
 	return wo
+}
+
+// hangSummary keeps the goroutines of a SIGQUIT dump that are blocked on a lock or channel inside
+// inbucket code.
+func hangSummary(all string) string {
+	i := strings.Index(all, "SIGQUIT")
+	if i < 0 {
+		return tail(all, 1500)
+	}
+	var keep []string
+	for _, g := range strings.Split(all[i:], "\n\n") {
+		if strings.Contains(g, "inbucket/v3/pkg") && (strings.Contains(g, "sync.") || strings.Contains(g, "chan ") || strings.Contains(g, "select")) {
+			lines := strings.Split(g, "\n")
+			if len(lines) > 9 {
+				lines = lines[:9]
+			}
+			keep = append(keep, strings.Join(lines, "\n"))
+		}
+		if len(keep) >= 6 {
+			break
+		}
+	}
+	if len(keep) == 0 {
+		return tail(all, 1500)
+	}
+	return strings.Join(keep, "\n\n")
 }
 
 func gomaxprocs(p part) string {
